@@ -121,7 +121,7 @@ def step(smp, mod, op, seen=None, integral=True):
         raise Failure('unsupported:' + M.root_cause(e), 'NotImplementedError in {} while applying {}'.format(M.root_cause(e), op), op[0])
     except Exception as e:
         raise Failure('raise:{}:{}'.format(type(e).__name__, M.root_cause(e)), '{!r} while applying {}'.format(e, op), op[0])
-    if seen is not None and seen.get(smp2) == mod2.key():
+    if seen is not None and seen.get(smp2, (None,))[0] == mod2.key():
         obs = M.conform(smp2, mod2, deep=False)
         if obs:
             raise Failure(obs[0], obs[1], M.typesig(smp2, 1))
@@ -179,14 +179,20 @@ def explore(bname, smp, mod, ops_so_far, levels, res, seen, first=None):
             res.violation(key, '{}: {}'.format(M.describe(bname, ops), f.what), {'part': 'a', 'base': bname, 'ops': ops})
             continue
         res.count('traces_validated_against_impl')
+        rest = tuple(levels[1:])
         if note == 'seen':
+            # verified before; expand again only if it was never expanded with at least these remaining levels
+            done = seen[smp2][1]
+            if not any(covers(prev, rest) for prev in done):
+                done.add(rest)
+                explore(bname, smp2, mod2, ops, levels[1:], res, seen)
             continue
         res.count('evaluations')
         if note:
             res.distinct('distinct_outcomes', 'note:' + note)
             res.count('element_order_alternatives')
         key = mod2.key()
-        seen[smp2] = key
+        seen[smp2] = (key, {rest})
         res.count('states')
         res.maximum('max_depth', len(ops))
         res.maximum('max_npoints', mod2.npoints)
@@ -196,3 +202,9 @@ def explore(bname, smp, mod, ops_so_far, levels, res, seen, first=None):
             res.sample({'sample': M.describe(bname, ops), 'type': M.typesig(smp2, 3), 'nelems': mod2.nelems, 'npoints': mod2.npoints,
                         'index': [[i for l, w, i in e] for e in mod2.elems][:4], 'sum_wF': [round(float(v), 9) for v in mod2.integral()]})
         explore(bname, smp2, mod2, ops, levels[1:], res, seen)
+
+
+def covers(prev, rest):
+    'an expansion with remaining levels `prev` includes the one with `rest` (full includes core)'
+    rank = {'core': 0, 'full': 1}
+    return len(prev) >= len(rest) and all(rank[p] >= rank[r] for p, r in zip(prev, rest))
